@@ -153,7 +153,8 @@ class TapeCassette(object):
             return False
 
         if isinstance(match_value, str):
-            return fnmatch(recorded_value, match_value)
+            # Only strings can match a pattern
+            return isinstance(recorded_value, str) and fnmatch(recorded_value, match_value)
 
         return recorded_value == match_value
 
@@ -163,18 +164,22 @@ class TapeCassette(object):
         Check if this is an operator metadata filter and its value is in range
         """
         result = False
-        if metadata_value['operator'] == '=':
-            result = recorded_value == metadata_value['value']
-        if metadata_value['operator'] == '<':
-            result = recorded_value < metadata_value['value']
-        if metadata_value['operator'] == '<=':
-            result = recorded_value <= metadata_value['value']
-        if metadata_value['operator'] == '>':
-            result = recorded_value > metadata_value['value']
-        if metadata_value['operator'] == '>=':
-            result = recorded_value >= metadata_value['value']
+        try:
+            if metadata_value['operator'] == '=':
+                result = recorded_value == metadata_value['value']
+            if metadata_value['operator'] == '<':
+                result = recorded_value < metadata_value['value']
+            if metadata_value['operator'] == '<=':
+                result = recorded_value <= metadata_value['value']
+            if metadata_value['operator'] == '>':
+                result = recorded_value > metadata_value['value']
+            if metadata_value['operator'] == '>=':
+                result = recorded_value >= metadata_value['value']
+        except TypeError:
+            # Values that cannot be compared (e.g. a missing value or a value of another type) do not match
+            return False
 
-        return result
+        return bool(result)
 
     @abstractmethod
     def extract_recording_category(self, recording_id):
